@@ -17,7 +17,8 @@ RULE = ('enumeration of ragged program structures: 9 languages x 13 value types 
         'empty} (quick strides the value-type x index-type product, thorough takes all), random pairwise distinct values; '
         'for every program: offer rule, both read blocks (reference interpreters of C06), accessor template parsed and '
         'evaluated under the language\'s indexing rules for EVERY k, example statement consistency and existence; darr and '
-        'numpymemmap snippets are executed for real; directory snapshot before/after. Non-trivial = ragged array with >= 1 '
+        'numpymemmap snippets are executed for real; directory snapshot before/after; arrays with >= 3 subarrays are then truncated through the same live object and all '
+        'programs are requested and checked again. Non-trivial = ragged array with >= 1 '
         'value and an offered program; distinct by (language, value type, index type, byte order, atom, pattern)')
 EXHAUSTIVE = False
 EXHAUSTIVE_PART = 'thorough tier enumerates the full value-type x index-type x byte-order x atom x pattern grid'
@@ -29,7 +30,7 @@ ANCHORS = ['readcoderaggedarray:readcode', 'readcoderaggedarray:readcodedarr', '
            'readcoderaggedarray:readcoder', 'readcoderaggedarray:readcodematlab', 'readcoderaggedarray:readcodescilab',
            'readcoderaggedarray:readcodejulia', 'readcoderaggedarray:readcodeidl',
            'readcoderaggedarray:readcodemathematica', 'readcoderaggedarray:readcodemaple', 'raggedarray:RaggedArray.readcode']
-REQUIRED = ['mon.offer_rule', 'mon.accessor_k', 'mon.example_statement', 'mon.executed', 'mon.tree_unchanged',
+REQUIRED = ['mon.after_truncate', 'mon.offer_rule', 'mon.accessor_k', 'mon.example_statement', 'mon.executed', 'mon.tree_unchanged',
             'mon.read_blocks']
 MIN_NONTRIVIAL = {'quick': 5000, 'thorough': 30000}
 
@@ -101,6 +102,29 @@ def run_case(case, env):
                 check_foreign(res, lang, code, path, model, values, indices, atom, case)
             if hasvalues:
                 sigs.add((lang, case['vtype'], case['itype'], case['bo'], atom, case['pattern']))
+        # ---- history on the SAME live object: truncate, then ask it for code again
+        if nsub >= 3 and not res.fails:
+            newn = 2 if (len(atom) + nsub) % 2 else 1
+            D.truncate_raggedarray(ra, newn)
+            model2 = model[:newn]
+            total2 = sum(lens[:newn])
+            values2 = np.concatenate(model2, axis=0).astype(dtype)
+            indices2 = indices[:newn]
+            res.count('mon.after_truncate')
+            for lang in langsem.RAGGED_LANGS:
+                code = ra.readcode(lang)
+                if code is None:
+                    continue
+                n0 = len(res.fails)
+                if lang in ('darr', 'numpymemmap'):
+                    check_executed(res, lang, code, path, model2, newn, total2 > 0, case)
+                elif total2 > 0:
+                    check_foreign(res, lang, code, path, model2, values2, indices2, atom, case)
+                for f in res.fails[n0:]:
+                    f['mech'] = 'after-truncate:' + f['mech']
+                    f['msg'] = f'after truncate_raggedarray(ra, {newn}) on the live object: ' + f['msg']
+                if total2 > 0:
+                    sigs.add((lang, case['vtype'], case['itype'], case['bo'], atom, case['pattern'], 'after-truncate'))
         res.sig = {repr(s) for s in sigs}
         res.nontrivial = bool(sigs)
         res.evals = max(1, len(sigs))
